@@ -560,7 +560,7 @@ def attach_companion_witnesses(pres, comp):
     for v in pres["violations"]:
         fn = v.key.get("function", "")
         short = ".".join(fn.split("@")[0].split(".")[-2:])
-        hits = byfn.get(short) or []
+        hits = byfn.get(short) or [h for a in comp.get("aliases", {}).get(short, []) for h in byfn.get(a, [])]
         if hits and not v.found_input:
             v.found_input = True
             v.detail["native_replay"] = {"reproduced": True, "companion": hits[0][0], "input": hits[0][1],
